@@ -45,6 +45,7 @@ type TraceHook struct {
 	ForwardExits bool // O2/O3: nothing is evaluated after an unconsumed exit marker, and it is returned
 	ConsumesReturn bool // the form consumes return markers itself (block, dolist, ...): no exit-forwarded obligation
 	ForwardBodyExits bool // same, but only for markers returned by forms of the own argument list
+	LockBalance  bool // every sync lock taken by the function is released again on every return path
 	AtEvals      []*AtEval
 	exitTags     []int
 	applied      map[*AtEval]int
@@ -251,6 +252,10 @@ func (h *TraceHook) lockCall(e *Exec, fr *Frame, st *State, c *ssa.CallCommon, i
 
 // TraceReturn: obligations at every normal return.
 func (h *TraceHook) atReturn(e *Exec, fr *Frame, st *State, res []Value) {
+	if h.LockBalance {
+		e.retN3++
+		e.oblige(st, "trace", fmt.Sprintf("locks-released-ret%d", e.retN3), Eq(st.heap[gHeld], IntLit(0)), "")
+	}
 	if (h.ForwardExits || h.ForwardBodyExits) && !h.ConsumesReturn && len(res) == 1 {
 		if r, ok := res[0].(*Term); ok && r.Sort == SObj {
 			e.retN2++
@@ -390,6 +395,27 @@ func EvaluatesForms(fn *ssa.Function) bool {
 				return true
 			}
 			if callee.Name() == "Eval" && callee.Signature.Recv() != nil && isScopePtr(callee.Signature.Recv().Type()) {
+				return true
+			}
+		}
+	}
+	return false
+}
+
+// TakesSyncLock: does fn contain a static call of a sync Lock / RLock / TryLock?
+func TakesSyncLock(fn *ssa.Function) bool {
+	for _, b := range fn.Blocks {
+		for _, in := range b.Instrs {
+			c, ok := in.(*ssa.Call)
+			if !ok {
+				continue
+			}
+			callee := c.Call.StaticCallee()
+			if callee == nil || callee.Pkg == nil || callee.Pkg.Pkg.Path() != "sync" {
+				continue
+			}
+			switch callee.Name() {
+			case "Lock", "RLock", "TryLock":
 				return true
 			}
 		}
